@@ -144,6 +144,13 @@ def run_check(pid, tier, seed, replay=None, repeat=1):
                         except Exception:
                             pass
                     notes[key] += 1
+        post = prop.get('post')
+        if post:
+            extra = []
+            post(ctx, recs, extra)
+            for key, r, msg in extra:
+                if P.relevant(prop, key):
+                    violations.append((key, r, msg))
         # dedupe by key
         bykey = collections.OrderedDict()
         for key, r, msg in violations:
